@@ -28,6 +28,7 @@ class Explorer:
         self.atoms = atoms
         self.some_atoms = list(some_atoms)      # (term predicate, bool): the Option/Result term is Some/Ok (True) or None/Err
         self.equalities = list(equalities)      # (term predicate, constant term): the assumptions pin such a term to that value
+        self.taken = set()                      # CFG edges followed by run()
 
     def is_some_term(self, x, depth=0):
         """three-valued: the option-like term x is Some/Ok"""
@@ -315,6 +316,7 @@ class Explorer:
             fe = frozenset(env.items())
             for s in succ:
                 work.append((s, fe))
+                self.taken.add((bi, s))
         if budget <= 0:
             return None
         return visited
@@ -322,6 +324,74 @@ class Explorer:
 
 def explore(view, starts, atoms, stop=(), some_atoms=()):
     return Explorer(view, atoms, some_atoms).run(starts, stop)
+
+
+_CMP = {"Lt": lambda a, b: a < b, "Le": lambda a, b: a <= b, "Gt": lambda a, b: a > b, "Ge": lambda a, b: a >= b,
+        "Eq": lambda a, b: a == b, "Ne": lambda a, b: a != b}
+
+
+def const_value(t, depth=0):
+    """the integer a constant expression denotes (literals combined by + - * and integer casts / identity conversions), else None"""
+    if depth > 8:
+        return None
+    if t[0] == "const" and isinstance(t[1], int) and not isinstance(t[1], bool):
+        return t[1]
+    if t[0] in ("bin", "ovf") and t[1] in ("Add", "Sub", "Mul"):
+        a, b = const_value(t[2], depth + 1), const_value(t[3], depth + 1)
+        if a is None or b is None:
+            return None
+        return a + b if t[1] == "Add" else (a - b if t[1] == "Sub" else a * b)
+    if t[0] == "field" and t[3] == "0" and t[1][0] == "ovf":
+        return const_value(t[1], depth + 1)
+    if t[0] == "cast":
+        return const_value(t[1], depth + 1)
+    return None
+
+
+def pin_atoms(is_x, v):
+    """atoms for the assumption `x == v` (x: any term accepted by is_x, v: an integer): every comparison of x with an integer
+    constant expression is decided"""
+    def val(t):
+        if t[0] == "bin" and t[1] in _CMP:
+            if is_x(t[2]):
+                c = const_value(t[3])
+                if c is not None:
+                    return _CMP[t[1]](v, c)
+            if is_x(t[3]):
+                c = const_value(t[2])
+                if c is not None:
+                    return _CMP[t[1]](c, v)
+        return None
+    return [(lambda t: val(t) is True, True), (lambda t: val(t) is False, False)]
+
+
+def specialise(crate, view, atoms, some_atoms=(), cache=None):
+    """the function specialised to the assumptions: a copy of the body in which every branch the assumptions decide is replaced by
+    a jump to the arm taken (the other arms become unreachable, so definitions on them no longer feed any phi).  Returns
+    (FnView of the residual body, blocks visited) or None when the exploration gave up.  `cache` (a dict) shares residual bodies
+    between assumption sets that take the same edges."""
+    import copy
+    from .view import FnView
+    ex = Explorer(view, atoms, some_atoms)
+    vis = ex.run([0])
+    if vis is None:
+        return None
+    key = frozenset(ex.taken)
+    if cache is not None and key in cache:
+        return cache[key], vis
+    j = copy.deepcopy(view.body.j)
+    for bi in vis:
+        t = j["blocks"][bi]["term"]
+        if t["k"] != "switch":
+            continue
+        tk = sorted({s for (a, s) in ex.taken if a == bi})
+        if len(tk) == 1:
+            j["blocks"][bi]["term"] = {"k": "goto", "target": tk[0], "span": t["span"], "exp": t.get("exp", False)}
+    nb = core.Body(crate, j)
+    fv = FnView(crate, nb)
+    if cache is not None:
+        cache[key] = fv
+    return fv, vis
 
 
 def must_pass(view, starts, atoms, through, ends):
